@@ -125,7 +125,10 @@ impl Links {
     }
 
     pub fn register_reporter(&mut self, lane_id: u64, reporter: UplinkReporter) {
-        self.forward.entry(lane_id).or_default().reporter = Some(reporter);
+        let links = self.forward.entry(lane_id).or_default();
+        // The lane could already have links: the reporter starts from the current count.
+        reporter.set_uplinks(u64::try_from(links.remotes.len()).expect(SIZE_TOO_LARGE));
+        links.reporter = Some(reporter);
     }
 
     /// Create a new link from a lane to a remote.
